@@ -109,12 +109,17 @@ def handleConn (dec : Bytes → Bool) (max : Nat) (done : Nat → Nat) (lim : Na
       for {
         c.SetReadDeadline(time.Now().Add(s.idleTimeout))   // absolute deadline, armed before EVERY message
         m, n, err := dnsutils.ReadMsgFromTCP(br)            // blocks (several socket reads) until the frame is whole
-        if err != nil { return }                            // i/o timeout: the connection is closed
+        if err != nil {
+          if n == 0 && concurrent.Load() > 0 && errors.Is(err, os.ErrDeadlineExceeded) { continue } // busy: re-arm
+          return                                              // i/o timeout: the connection is closed
+        }
         …
       }
 
   Times are natural numbers (any unit). `arr` lists, for each successive frame, the time at which its last
-  octet is available to the reader. The deadline is NOT re-armed between the socket reads of one message:
+  octet is available to the reader. (The `continue` on a timeout with queries in flight only makes the listener
+  more patient; `idleLoop` models the stricter behaviour, and under `paced` no timeout happens at all.)
+  The deadline is NOT re-armed between the socket reads of one message:
   what must stay below `idle` is the time from the top of the loop (the previous message was complete, or the
   connection was accepted) to the completion of the message — not merely every pause between two segments. -/
 
